@@ -87,6 +87,30 @@ def run(tier):
         finally:
             w.close()
 
+        # 5b. the registry of named caches: unique names, unique paths, default cache on demand ----------
+        from ocean_science_utilities.filecache import filecache as fcmod
+        d1, d2 = os.path.join(work, "reg1"), os.path.join(work, "reg2")
+        w0 = cd.World(cd.DEFAULT_KEYS)
+        try:
+            fcmod.create_cache("verif-reg-a", cache_path=d1, cache_size_GB=0.001, resources=[w0.resource])
+            for nm, path, why in (("verif-reg-a", d2, "a second cache under an existing name"), ("verif-reg-b", d1, "a second cache on a path that is in use")):
+                try:
+                    fcmod.create_cache(nm, cache_path=path, cache_size_GB=0.001, resources=[w0.resource])
+                    chk.violation("registry:%s" % nm, "create_cache accepted %s (two caches would share files)" % why, {"name": nm, "path": path})
+                    fcmod._ACTIVE_FILE_CACHES.pop("verif-reg-b", None)
+                except ValueError:
+                    pass
+            if not fcmod.exists("verif-reg-a") or fcmod.exists("verif-reg-zzz"):
+                chk.violation("registry:exists", "exists() does not reflect the created caches", {})
+            fcmod.delete_cache("verif-reg-a")
+            if fcmod.exists("verif-reg-a"):
+                chk.violation("registry:delete", "delete_cache left the cache registered", {})
+            calls += 5
+        finally:
+            fcmod._ACTIVE_FILE_CACHES.pop("verif-reg-a", None)
+            fcmod._ACTIVE_FILE_CACHES.pop("verif-reg-b", None)
+            w0.close()
+
         # 6. binding demonstration: a corrupted trace must be rejected -----------------------------
         demo = binding_demo(work, trace.path)
         chk.set("binding_demo", demo)
